@@ -19,7 +19,7 @@ import dnachisel as dc  # noqa
 from gen import hard, problems  # noqa
 
 
-class _Timeout(Exception):
+class _Timeout(BaseException):
     pass
 
 
